@@ -170,7 +170,7 @@ theorem sim_shift (cfg : Cfg) (ar : Arith) (now : Int) (s : State) (keys : List 
   | true =>
     have he := exists_true_abs cfg s hinv hx
     simp only [Model.stepCore, Spec.step, hx, he, Bool.not_true, Bool.false_eq_true, if_false]
-    obtain ⟨a1, a2⟩ := shiftLoop_sim cfg keys (Model.summon s) hi
+    obtain ⟨a1, a2⟩ := shiftLoop_sim cfg ar keys (Model.summon s) hi
     obtain ⟨b1, b2⟩ := settleAfterDelete_sim cfg s _ hinv a1
     rw [habs] at a2
     refine ⟨?_, ?_, b1⟩
